@@ -225,6 +225,40 @@ Definition ext_value_eqb (a b : ext_value) : bool :=
   | _, _ => false
   end.
 
+(* ------------------------------------------------------------------ args/mod.rs: the yr subcommand *)
+Inductive yr_exec :=
+| YrListModules
+| YrError                                   (* message on stderr, ExitCode::FAILURE *)
+| YrLoad (file input : bytes)
+| YrScan (rules : list bytes) (input : bytes).
+
+(* ExecutionMode::from_yr_args: the last positional argument is the target, the others are rules *)
+Definition from_yr_args (module_names load : bool) (positional : list bytes) : yr_exec :=
+  if module_names then YrListModules
+  else if (length positional <? 2)%nat then YrError
+  else
+    let input := last positional [] in
+    let rules := removelast positional in
+    if load then match rules with [r] => YrLoad r input | _ => YrError end
+    else YrScan rules input.
+
+(* list_modules: names.sort_unstable() on byte strings, one per line *)
+Fixpoint bytes_leb (a b : bytes) : bool :=
+  match a, b with
+  | [], _ => true
+  | _ :: _, [] => false
+  | x :: a', y :: b' => if x <? y then true else if y <? x then false else bytes_leb a' b'
+  end.
+Fixpoint insert_sorted (x : bytes) (l : list bytes) : list bytes :=
+  match l with
+  | [] => [x]
+  | y :: rest => if bytes_leb x y then x :: l else y :: insert_sorted x rest
+  end.
+Definition list_modules (available : list bytes) : list bytes := fold_right insert_sorted [] available.
+
+(* save_scanner: refuses to overwrite *)
+Definition save_exit (destination_exists : bool) : N := if destination_exists then 1 else 0.
+
 (* ------------------------------------------------------------------ library events *)
 Inductive event :=
 | EvRule (matched : bool) (info : rule_info) (ms : list (bytes * list smatch))   (* RuleMatch / RuleNoMatch *)
